@@ -19,7 +19,8 @@ META = {
         "undefined ones - staged by the marker walk, and the hand-down chain "
         "of orig_desc / source / orig_index from PLSSDesc through PLSSParser "
         "to each Tract (counter from 0, +1 per tract)."
-        ' Also: Tract.__init__ stores source / orig_desc / orig_index as given (no truthiness filter), emitted Twp/Rge digits fit the TRS unpacker, parallel twp/rge/sec clauses are pure.'),
+        ' Also: Tract.__init__ stores source / orig_desc / orig_index as given (no truthiness filter), emitted Twp/Rge digits fit the TRS unpacker, parallel twp/rge/sec clauses are pure.'
+        ' Round 7: the original text is recorded before any rewriting; the source tag is not truth-filtered on its way to the parser; a tract made by copying gets its own orig_index.'),
     'families': ['SIB', 'DEFUSE', 'RX-LANG', 'TBL', 'FORWARD', 'DEADPARAM', 'SIB-DEFAULTS'],
 }
 
